@@ -61,6 +61,12 @@ func (propC08) Gen(r *Rng, tier string) *World {
 	w.Cfg.OptMask = r.Intn(16)
 	w.Extra["build"] = strconv.Itoa(r.Intn(5))
 	w.Extra["set_opts"] = []string{"0", "1"}[r.Intn(2)]
+	if r.P(0.15) {
+		// the master switch stored directly in CompileOptions (nothing reads it
+		// there; nothing may write next to it either)
+		w.Extra["optimize_key"] = []string{"true", "false"}[r.Intn(2)]
+		w.Extra["set_opts"] = "0"
+	}
 	if r.P(0.5) {
 		w.Cfg.Costs = map[string]string{}
 		names := []string{"variable", "operator", "and", "="}
@@ -116,6 +122,9 @@ func (propC08) Gen(r *Rng, tier string) *World {
 				// options, other subset) in between: "in any order relative to
 				// other compilations"
 				script = append(script, Step{Op: "foreign", Expr: r.Intn(np), Mask: r.Intn(16), Arg: []string{"", "report", "debug", "both"}[r.Intn(4)]})
+			case x < 9 && r.P(0.3):
+				// Compile with a nil Config (legal: built-ins and literals only)
+				script = append(script, Step{Op: "nilconf", Mask: r.Intn(16), Arg: strconv.Itoa(r.Intn(6))})
 			case x < 9:
 				script = append(script, Step{Op: "copyconf", Arg: []string{"copy", "extend"}[r.Intn(2)]})
 			default:
@@ -133,6 +142,9 @@ func (propC08) Gen(r *Rng, tier string) *World {
 func buildSharedConfig(w *World, host *OpHost) *eval.Config {
 	setOpts := w.Extra["set_opts"] == "1"
 	full := BuildConfig(&w.Cfg, host, w.Cfg.OptMask, setOpts)
+	if v, ok := w.Extra["optimize_key"]; ok {
+		full.CompileOptions[eval.Optimize] = v == "true"
+	}
 	switch w.Extra["build"] {
 	case "1": // struct literal, nil maps wherever the spec has nothing to put in
 		cc := &eval.Config{}
@@ -440,6 +452,36 @@ func (pr propC08) Run(w *World, st *Stats) *Violation {
 		return nil
 	}
 
+	// nilConf: Compile(nil, text). A directive in one such compilation must not
+	// reach the next one: the same literal-only source is compiled before and
+	// after a compilation that carries a directive; the two Dumps must agree.
+	nilConf := func(s Step) *Violation {
+		const src = "(and (> (+ 1 2) 2) (= (* 2 3) 6) (< 1 (- 5 3)))"
+		style, _ := strconv.Atoi(s.Arg)
+		var d [2]string
+		for k := 0; k < 2; k++ {
+			var e *eval.Expr
+			var err error
+			func() {
+				defer func() { recover() }()
+				e, err = eval.Compile(nil, src)
+			}()
+			if e == nil || err != nil {
+				return nil
+			}
+			d[k] = eval.Dump(e)
+			if k == 0 {
+				func() {
+					defer func() { recover() }()
+					eval.Compile(nil, Directive(s.Mask, style)+src)
+				}()
+			}
+		}
+		if d[0] != d[1] {
+			return viol(w, "nondeterministic-compile", "Compile(nil, text) of the same literal-only source gives %s before and %s after another Compile(nil, ...) whose source carries the directive %q", oneLine(d[0]), oneLine(d[1]), Directive(s.Mask, style))
+		}
+		return nil
+	}
 	foreign := func(s Step) {
 		fc := w.Cfg
 		fc.Event = s.Arg
@@ -456,6 +498,12 @@ func (pr propC08) Run(w *World, st *Stats) *Violation {
 		}
 		if s.Op == "foreign" {
 			foreign(s)
+			return c08out{}
+		}
+		if s.Op == "nilconf" {
+			if v := nilConf(s); v != nil && stepViol == nil {
+				stepViol = v
+			}
 			return c08out{}
 		}
 		if v := copyStep(s); v != nil && stepViol == nil {
@@ -549,6 +597,8 @@ func (pr propC08) Run(w *World, st *Stats) *Violation {
 					o = rn.compileStep(rn.cc, rn.host, s, nil, true)
 				} else if s.Op == "foreign" {
 					foreign(s)
+				} else if s.Op == "nilconf" {
+					nilConf(s)
 				} else if s.Arg != "reverse" {
 					// copying the shared config while others compile from it
 					var cp *eval.Config
